@@ -844,6 +844,8 @@ def get_item(ex, st, o, i, node=None):
         return [(st, str_index(ex, st, v, i0, node))]
     if isinstance(v, Func) and v.kind == "builtin" and v.target == "numpy.r_":
         return [(st, np_r_(ex, st, i0))]
+    if type(v).__name__ == "GroupBy":
+        return [(st, type(v)(v.tabref, v.keys, i0))]      # groupby(...)[columns]
     raise Unsupported("subscript of %r with %r" % (v, i0))
 
 
@@ -995,12 +997,42 @@ def _quant(ex, st, e, kind):
     if lo is not None:
         rng = z3.And([z3.And(to_z3(lo) <= k, k < to_z3(hi)) for k in ks])
         body = z3.Implies(rng, body) if kind == "forall" else z3.And(rng, body)
+    eager = False
+    try:
+        c0 = ex.frames[0].contract if ex.frames else None
+        eager = bool(c0 and c0.ghost.get("eager_triggers"))
+    except Exception:
+        eager = False
+    if kind == "forall" and lo is not None and eager:
+        # opt-in: every small uninterpreted application of the bound variables is a trigger of its own (the default
+        # picks a minimal set, which can leave a chain of stepping-stone clauses without any matching ground term)
+        pats = _uf_patterns(body, ks, limit=8)
+        if pats:
+            return [(st, z3.ForAll(ks, body, patterns=pats))]
     if kind == "forall" and lo is None:
         pats = _uf_patterns(body, ks)
         if pats:
             # unbounded integer quantifier: trigger on the uninterpreted applications that mention the variable
             return [(st, z3.ForAll(ks, body, patterns=pats))]
     return [(st, z3.ForAll(ks, body) if kind == "forall" else z3.Exists(ks, body))]
+
+
+_PAT_OK_KINDS = (z3.Z3_OP_UNINTERPRETED, z3.Z3_OP_ADD, z3.Z3_OP_SUB, z3.Z3_OP_MUL, z3.Z3_OP_UMINUS, z3.Z3_OP_ANUM,
+                 z3.Z3_OP_TO_REAL)
+
+
+def _pattern_ok(t):
+    """z3 accepts only terms built from function applications, variables and arithmetic as triggers (no ite/and/or/=)"""
+    todo = [t]
+    while todo:
+        x = todo.pop()
+        if z3.is_quantifier(x):
+            return False
+        if z3.is_app(x):
+            if x.decl().kind() not in _PAT_OK_KINDS:
+                return False
+            todo += x.children()
+    return True
 
 
 def _uf_patterns(body, ks, limit=2):
@@ -1023,7 +1055,8 @@ def _uf_patterns(body, ks, limit=2):
                 v2, s2 = vars_of(ch)
                 vs, sz = vs | v2, sz + s2
             r = (vs, sz)
-            if z3.is_app(t) and t.decl().kind() == z3.Z3_OP_UNINTERPRETED and t.num_args() > 0 and vs == want and sz < 40:
+            if z3.is_app(t) and t.decl().kind() == z3.Z3_OP_UNINTERPRETED and t.num_args() > 0 and vs == want and sz < 40 \
+                    and _pattern_ok(t):
                 found.append((sz, t))
         seen[i] = r
         return r
@@ -1204,6 +1237,8 @@ def b_len(ex, st, args, kwargs, node):
         return len(v.f)
     if isinstance(v, Obj):
         return obj_len(ex, st, args[0], v)
+    if hasattr(v, "n") and type(v).__name__ in ("UniqueOf",):
+        return v.n
     raise Unsupported("len of %r" % (v,))
 
 
